@@ -118,9 +118,13 @@ class Poly:
         return self.t.get((), Fraction(0))
 
     # -- anything data dependent is a branch
-    def _branch(self, *a, **k):
+    _compare_hook = None     # set by a tracer that records a data-dependent comparison and fixes its outcome
+
+    def _branch(self, other=None, *a, **k):
         if self.is_const():
             return NotImplemented
+        if Poly._compare_hook is not None:
+            return Poly._compare_hook(self, other)
         raise Branch("comparison / truth value of a symbolic quantity")
     __lt__ = __le__ = __gt__ = __ge__ = _branch
 
